@@ -1194,9 +1194,23 @@ func (c *Conn) readAll(r io.Reader, size int) (*[]byte, error) {
 		}
 		if len(*pbuf) == cap(*pbuf) {
 			l := len(*pbuf)
-			// can not extend more bytes.
+			// can not extend more bytes: the buffer is full at the limit, and
+			// the message is too large only if a further byte follows.
 			if c.isMessageTooLarge(l + 1) {
-				return nil, ErrMessageTooLarge
+				var probe [1]byte
+				for {
+					n, err = r.Read(probe[:])
+					if n > 0 {
+						c.Engine.BodyAllocator.Free(pbuf)
+						return nil, ErrMessageTooLarge
+					}
+					if err != nil {
+						if err == io.EOF {
+							err = nil
+						}
+						return pbuf, err
+					}
+				}
 			}
 			al := l
 			if al > maxAppendSize {
